@@ -268,6 +268,9 @@ class MockState:
 
         Line nodes are placed into child line block containers, based on their indentation.
         """
+        if len(block) and getattr(block[0], "indent", None) is None:
+            # e.g. a system message added to the block for its ``name`` option
+            block[0].indent = 0
         for index in range(1, len(block)):
             if getattr(block[index], "indent", None) is None:
                 block[index].indent = block[index - 1].indent
